@@ -137,6 +137,7 @@ pub fn derive_plans(rng: &mut Rng, tier: Tier, count: usize) -> Vec<Plan> {
     let enable_repeat = tier == Tier::InProc && rng.chance(1, 2);
     let enable_stall = tier == Tier::Exec && rng.chance(1, 2);
     let enable_history = rng.chance(1, 2);
+    let enable_io_timing = rng.chance(1, 2);
     while plans.len() < count {
         let roll = rng.below(100);
         let mut plan = if enable_extreme && roll < 5 {
@@ -228,6 +229,16 @@ pub fn derive_plans(rng: &mut Rng, tier: Tier, count: usize) -> Vec<Plan> {
         }
         if enable_history && rng.chance(1, 4) {
             plan.prior_edit = rng.range(1, 1 << 30) as u32;
+        }
+        if enable_io_timing && rng.chance(1, 3) {
+            // timed waits run out at once / early / late; reads of the file come in pieces
+            if rng.chance(2, 3) {
+                plan.wait_ppm = *rng.pick(&[0u32, 0, 1000, 100_000, 3_000_000]);
+            }
+            if rng.chance(2, 3) {
+                plan.read_chunk = *rng.pick(&[1u32, 3, 7, 64, 1000, 4096, 5000]);
+                plan.read_eintr = rng.below(3) as u32;
+            }
         }
         plans.push(plan);
     }
